@@ -82,7 +82,8 @@ def run_shard(spec):
                 out["samples"].append({"instance": label, "stats": dict(st)})
         else:
             stats = {}
-            ex = F.random_walk(maker(cls, width, depth), width, True, buffered, spec["events"], rng, stats)
+            ex = F.random_walk(maker(cls, width, depth), width, True, buffered, spec["events"], rng, stats,
+                               reset_rate=rng.choice([0.0, 0.01, 0.03]))
             st = ex.stats
             st["transitions"] = spec["events"]
             for k, v in stats.items():
